@@ -27,7 +27,7 @@ RULE = ('histories over a pool of 13 trees (elisions, nested scopes, comments, t
 ASSUMPTIONS = ['behaviour of a generator after it raised, and identity (as opposed to equality) of fragments, are not demanded']
 BUDGET_S = {'quick': 60, 'thorough': 600}
 REQUIRED_HITS = ['full', 'abandon', 'raise', 'shortcut', 'str', 'fingerprints_compared', 'Indentator()', 'Obfuscator()',
-                 'shortcut_history_step']
+                 'shortcut_history_step', 'interleave']
 FLOOR = {'quick': 200, 'thorough': 2000}
 
 TEXTS = [
@@ -307,6 +307,33 @@ def run_history(ctx, world, fp, ctors, history):
             if kind == 'full' and pname.startswith('obfuscate'):
                 if ctors.counts['Obfuscator'] <= before['Obfuscator']:
                     viol.append(('C14:obfuscator_not_per_call', 'printer %s did not construct an Obfuscator for this call' % pname))
+        elif kind == 'interleave':
+            # two calls of one printer object alive at the same time (a consumer that zips two outputs): the
+            # fragments of each are those of the call alone
+            pi, ti, tj = op[1], op[2], op[3]
+            printer, pname = world.printers[pi], world.pdefs[pi][0]
+            try:
+                gens = [iter(printer(world.trees[ti])), iter(printer(world.trees[tj]))]
+                outs = [[], []]
+                alive = [0, 1]
+                k = 0
+                while alive:
+                    w = alive[k % len(alive)]
+                    k += 1
+                    try:
+                        outs[w].append(frag_key(next(gens[w])))
+                    except StopIteration:
+                        alive.remove(w)
+                got = [('ok', outs[0]), ('ok', outs[1])]
+            except Exception as e:
+                got = [('raises', type(e).__name__, str(e)[:120])] * 2
+            ctx.hit('interleave')
+            for g, t in zip(got, (ti, tj)):
+                if g != world.gold(pi, t):
+                    viol.append(('C14:interleaved_calls_differ', 'printer %s applied to trees %d and %d with both calls '
+                                 'advanced alternately: the result for tree %d differs from a fresh printer %s' % (
+                                     pname, ti, tj, t, g if g[0] != 'ok' else '')))
+                    break
         elif kind == 'shortcut':
             from calmjs.parse import es5
             from calmjs.parse.unparsers.es5 import pretty_print, minify_print
@@ -411,6 +438,15 @@ def run(ctx):
             ctx.case(tuple(hist), True)
             report(v, hist)
 
+        # every printer with two of its calls alive at once (same tree twice; two trees), then alone again
+        for pi in range(np_):
+            if pi % ctx.nshards != ctx.shard:
+                continue
+            hist = [('interleave', pi, 1, 1), ('interleave', pi, 2, 7), ('full', pi, 2), ('full', pi, 1)]
+            v = run_history(ctx, world, fp, ctors, hist)
+            ctx.case(tuple(hist), True)
+            report(v, hist)
+
         # exhaustive short histories over a reduced alphabet (partitioned over the shards)
         red_p = [0, 2, 4, 6, 8, 9]
         red_t = [1, 2, 7]
@@ -458,9 +494,11 @@ def run(ctx):
                     hist.append(('abandon', pi, ti, rng.randint(0, 12)))
                 elif r < 0.85:
                     hist.append(('raise', pi, ti, rng.randint(1, 15)))
-                elif r < 0.93:
+                elif r < 0.91:
                     w, kw = rng.choice(shortcut_kws)
                     hist.append(('shortcut', ti, w, kw))
+                elif r < 0.95:
+                    hist.append(('interleave', pi, ti, rng.choice([ti, rng.randrange(nt)])))
                 else:
                     hist.append(('str', ti))
             for a, b in zip(hist, hist[1:]):
